@@ -19,29 +19,65 @@ def build(term, W, cache=None):
     import ovld.types as OT
 
     k = term[0]
+    if k == "Dep" and cache is not None and term in cache:
+        return cache[term]  # a Dependent type built twice is two different types: share it within a run
     if k == "K":
         return W.K[term[1]]
     if k == "obj":
         return object
     if k == "U":
-        return OT.Union[tuple(build(t, W) for t in term[1:])]
+        return OT.Union[tuple(build(t, W, cache) for t in term[1:])]
     if k == "I":
-        return OT.Intersection[tuple(build(t, W) for t in term[1:])]
+        return OT.Intersection[tuple(build(t, W, cache) for t in term[1:])]
     if k == "Ex":
-        return OT.Exactly[build(term[1], W)]
+        return OT.Exactly[build(term[1], W, cache)]
     if k == "SS":
-        return OT.StrictSubclass[build(term[1], W)]
+        return OT.StrictSubclass[build(term[1], W, cache)]
     if k == "HM":
         return OT.HasMethod[term[1]]
     if k == "type":
-        return type[build(term[1], W)]
+        return type[build(term[1], W, cache)]
     if k == "list":
-        return list[build(term[1], W)]
+        return list[build(term[1], W, cache)]
     if k == "dict":
-        return dict[build(term[1], W), build(term[2], W)]
+        return dict[build(term[1], W, cache), build(term[2], W, cache)]
     if k == "raw":
-        return term[1]
+        return RAW[term[1]]
+    if k == "Lit":
+        import typing
+
+        return OT.normalize_type(typing.Literal[tuple(term[1:])], None)
+    if k == "tuple":
+        return OT.normalize_type(tuple[tuple(build(t, W, cache) for t in term[1:])], None)
+    if k == "Dep":
+        from ovld.dependent import Dependent
+
+        d = Dependent[build(term[1], W, cache), PREDS[term[2]]]
+        if cache is not None:
+            cache[term] = d
+        return d
     raise ValueError(term)
+
+
+import typing as _typing
+
+RAW = {"list": list, "dict": dict, "tuple": tuple, "int": int, "str": str, "bool": bool, "type": type,
+       "typing.List": _typing.List, "typing.Dict": _typing.Dict}
+
+
+def _p0(x):
+    return True
+
+
+def _p1(x):
+    return True
+
+
+def _p2(x):
+    return False
+
+
+PREDS = [_p0, _p1, _p2]
 
 
 def term_str(term):
@@ -67,7 +103,13 @@ def term_str(term):
     if k == "dict":
         return f"dict[{term_str(term[1])}, {term_str(term[2])}]"
     if k == "raw":
-        return repr(term[1])
+        return term[1]
+    if k == "Lit":
+        return "Literal[" + ", ".join(map(repr, term[1:])) + "]"
+    if k == "tuple":
+        return "tuple[" + ", ".join(map(term_str, term[1:])) + "]"
+    if k == "Dep":
+        return f"Dependent[{term_str(term[1])}, p{term[2]}]"
     return repr(term)
 
 
